@@ -338,21 +338,26 @@ REFS = [
 
 
 def body_at(src, pos):
-    """text of the item starting at pos up to its closing `;` (const) or matching `}` (fn)"""
+    """text of the item starting at pos up to its closing `;` (const item) or the `}` matching its first `{` (fn)"""
     i = pos
-    depth = 0
+    depth = 0      # {}
+    pdepth = 0     # () and []
     n = len(src)
     seen_brace = False
     while i < n:
         ch = src[i]
-        if ch == '{':
+        if ch in '([':
+            pdepth += 1
+        elif ch in ')]':
+            pdepth -= 1
+        elif ch == '{':
             depth += 1
             seen_brace = True
         elif ch == '}':
             depth -= 1
             if seen_brace and depth == 0:
                 return src[pos:i + 1]
-        elif ch == ';' and depth == 0 and not seen_brace:
+        elif ch == ';' and depth == 0 and pdepth == 0 and not seen_brace:
             return src[pos:i + 1]
         i += 1
     return src[pos:]
